@@ -61,9 +61,114 @@ def copyprop(stmts_before, name):
     return cur
 
 
+def _subst(e, mapping):
+    """copy of expression / statement `e` with Name loads replaced by the expressions in `mapping`"""
+    from verif_static import norm as N_
+
+    class R(ast.NodeTransformer):
+        def visit_Name(self, n):
+            if isinstance(n.ctx, ast.Load) and n.id in mapping:
+                return N_.clone(mapping[n.id])
+            return n
+    return R().visit(N_.clone(e))
+
+
+def normalise_gj(fn):
+    """gj_solve in the normal form the rules below are written against - the same computation:
+    (a) a plain copy of the loop variable made at the top of a loop body (`col = rrcol`), never assigned again in that body, is replaced by the loop variable;
+    (b) a temporary assigned once in a loop body and read only in the statement that follows (`cand = abs(...)`; `if cand > big:`) is written in place;
+    (c) a shadow of the search result - a variable B that is assigned next to every assignment `I = R` of an index variable, always as the same expression F(R) (`bigrow = row;
+        big = abs(m[nt*row + col])`) - is replaced by F(I) and its assignments dropped: B == F(I) is an invariant."""
+    from verif_static import norm as N_
+    new = N_.clone(fn)
+
+    def stores(node, name):
+        return [x for x in ast.walk(node) if isinstance(x, ast.Name) and x.id == name and isinstance(x.ctx, ast.Store)]
+    # (a)
+    for loop in [l for l in ast.walk(new) if isinstance(l, ast.For) and isinstance(l.target, ast.Name)]:
+        lv = loop.target.id
+        keep = []
+        mapping = {}
+        for st in loop.body:
+            if isinstance(st, ast.Assign) and len(st.targets) == 1 and isinstance(st.targets[0], ast.Name) and isinstance(st.value, ast.Name) and st.value.id == lv \
+                    and len(stores(loop, st.targets[0].id)) == 1 and not mapping.get(st.targets[0].id):
+                mapping[st.targets[0].id] = ast.Name(id=lv, ctx=ast.Load())
+                continue
+            keep.append(_subst(st, mapping) if mapping else st)
+        loop.body = keep or [ast.Pass()]
+    # (b)
+    for blk_owner in [n for n in ast.walk(new) if isinstance(n, (ast.For, ast.If, ast.FunctionDef, ast.While))]:
+        for fld in ('body', 'orelse'):
+            blk = getattr(blk_owner, fld, None)
+            if not isinstance(blk, list):
+                continue
+            out = []
+            k = 0
+            while k < len(blk):
+                st = blk[k]
+                if k + 1 < len(blk) and isinstance(st, ast.Assign) and len(st.targets) == 1 and isinstance(st.targets[0], ast.Name) and isinstance(st.value, ast.Call):
+                    nm = st.targets[0].id
+                    uses_later = any(isinstance(x, ast.Name) and x.id == nm for later in blk[k + 2:] for x in ast.walk(later))
+                    if len(stores(new, nm)) == 1 and not uses_later and not any(isinstance(x, ast.Name) and x.id == nm and isinstance(x.ctx, ast.Store) for x in ast.walk(blk[k + 1])):
+                        blk[k + 1] = _subst(blk[k + 1], {nm: st.value})
+                        k += 1
+                        continue
+                out.append(st)
+                k += 1
+            setattr(blk_owner, fld, out or [ast.Pass()])
+    # (c)
+    M.set_parents(new)
+    assigns = {}
+    for a in ast.walk(new):
+        if isinstance(a, ast.Assign) and len(a.targets) == 1 and isinstance(a.targets[0], ast.Name):
+            assigns.setdefault(a.targets[0].id, []).append(a)
+    for B, alist in sorted(assigns.items()):
+        if len(alist) < 2:
+            continue
+        pairs = []
+        for a in alist:
+            par = a.parent
+            blk = next((getattr(par, f_) for f_ in ('body', 'orelse') if isinstance(getattr(par, f_, None), list) and a in getattr(par, f_)), None)
+            sib = [x for x in (blk or []) if isinstance(x, ast.Assign) and x is not a and len(x.targets) == 1 and isinstance(x.targets[0], ast.Name) and isinstance(x.value, ast.Name)]
+            pairs.append((a, sib))
+        idx_names = set.intersection(*[set(x.targets[0].id for x in sib) for a, sib in pairs]) if pairs else set()
+        for I in sorted(idx_names):
+            if I == B:
+                continue
+            rs = [next(x.value.id for x in sib if x.targets[0].id == I) for a, sib in pairs]
+            # F from an assignment whose R occurs nowhere else in its expression
+            F = None
+            for (a, sib), R in zip(pairs, rs):
+                cand = _subst(a.value, {R: ast.Name(id=I, ctx=ast.Load())})
+                if all(U(_subst(cand, {I: ast.Name(id=R2, ctx=ast.Load())})) == U(a2.value) for (a2, s2), R2 in zip(pairs, rs)):
+                    F = cand
+                    break
+            if F is None:
+                continue
+            for a, sib in pairs:
+                par = a.parent
+                for f_ in ('body', 'orelse'):
+                    blk = getattr(par, f_, None)
+                    if isinstance(blk, list) and a in blk:
+                        blk.remove(a)
+                        if not blk:
+                            blk.append(ast.Pass())
+
+            class RB(ast.NodeTransformer):
+                def visit_Name(self, n):
+                    if isinstance(n.ctx, ast.Load) and n.id == B:
+                        return N_.clone(F)
+                    return n
+            new = RB().visit(new)
+            break
+    ast.fix_missing_locations(new)
+    M.set_parents(new)
+    return new
+
+
 def rule_gj(chk):
     t = M.py(LA)
-    fn = M.find_func(t, 'gj_solve')
+    fn = normalise_gj(M.find_func(t, 'gj_solve'))
     ints = {}
     for s in fn.body:
         if isinstance(s, ast.Assign) and isinstance(s.targets[0], ast.Name) and not isinstance(s.value, ast.Call):
@@ -461,16 +566,39 @@ def rule_eigen_wrapper(chk):
     q = M.find_func(t, 'tql2')
     sent = [a for a in ast.walk(q) if isinstance(a, ast.Assign) and isinstance(a.targets[0], ast.Subscript) and U(a.targets[0].value) == 'e' and
             U(a.targets[0].slice).replace(' ', '') == 'n-1' and isinstance(a.value, ast.Constant) and a.value.value == 0]
-    srch = [w for w in ast.walk(q) if isinstance(w, ast.While) and U(w.test).replace(' ', '') == 'm<n']
+    # the search loop: a while loop whose body only advances m.  It is left when a conjunct of its test fails or a leading `if C: break` fires; one of these exit conditions
+    # must be the non-strict |e[m]| <= eps*tst1 (however it is spelled: `if ... <= ...: break`, `while ... and not (... <= ...)`, `while ... and ... > ...`)
+    def advances_m_only(w):
+        rest = [st for st in w.body if not (isinstance(st, ast.If) and any(isinstance(b, ast.Break) for b in st.body))]
+        return len(rest) == 1 and U(rest[0]).replace(' ', '') in ('m+=1', 'm=m+1')
+    srch = [w for w in ast.walk(q) if isinstance(w, ast.While) and advances_m_only(w)]
+    NEG = {ast.Lt: ast.GtE, ast.LtE: ast.Gt, ast.Gt: ast.LtE, ast.GtE: ast.Lt, ast.Eq: ast.NotEq, ast.NotEq: ast.Eq}
+
+    def exit_atom(c, negate):
+        """(lhs, op class, rhs) of the condition under which the loop is left, negations pushed into the comparison"""
+        while isinstance(c, ast.UnaryOp) and isinstance(c.op, ast.Not):
+            c, negate = c.operand, not negate
+        if isinstance(c, ast.Compare) and len(c.ops) == 1:
+            op = type(c.ops[0])
+            if negate:
+                op = NEG.get(op)
+            return (U(c.left).replace(' ', ''), op, U(c.comparators[0]).replace(' ', ''))
+        return None
     ok = bool(sent) and len(srch) == 1
     if ok:
-        brk = [i for i in srch[0].body if isinstance(i, ast.If) and any(isinstance(b, ast.Break) for b in i.body)]
-        ok = len(brk) == 1 and isinstance(brk[0].test, ast.Compare) and len(brk[0].test.ops) == 1
-        if ok:
-            tcmp = brk[0].test
-            lhs, rhs, op = U(tcmp.left).replace(' ', ''), U(tcmp.comparators[0]).replace(' ', ''), tcmp.ops[0]
-            small_lhs = lhs in ('fabs(e[m])', 'abs(e[m])')
-            ok = (small_lhs and isinstance(op, ast.LtE)) or (rhs in ('fabs(e[m])', 'abs(e[m])') and isinstance(op, ast.GtE))
+        w = srch[0]
+        atoms = []
+        conj = w.test.values if isinstance(w.test, ast.BoolOp) and isinstance(w.test.op, ast.And) else [w.test]
+        for c_ in conj:
+            atoms.append(exit_atom(c_, True))            # the loop goes on while c_ holds: it is left when c_ fails
+        for st in w.body:
+            if isinstance(st, ast.If) and any(isinstance(b, ast.Break) for b in st.body) and not st.orelse:
+                disj = st.test.values if isinstance(st.test, ast.BoolOp) and isinstance(st.test.op, ast.Or) else [st.test]
+                for c_ in disj:
+                    atoms.append(exit_atom(c_, False))
+        small = ('fabs(e[m])', 'abs(e[m])')
+        ok = any(a_ is not None and ((a_[0] in small and a_[1] is ast.LtE) or (a_[2] in small and a_[1] is ast.GtE)) for a_ in atoms) and \
+            any(a_ is not None and ((a_[0] == 'm' and a_[1] is ast.GtE and a_[2] == 'n') or (a_[2] == 'm' and a_[1] is ast.LtE and a_[0] == 'n')) for a_ in atoms)
     chk.decide(ok, 'eigen-scaling-wrapper', 'tql2:search-stops-at-the-sentinel', node=srch[0] if srch else q, file=L3, func='tql2',
                detail_bad='the scan `while m < n` must stop at the sentinel e[n-1] = 0 through `fabs(e[m]) <= eps*tst1`; with a strict `<` it does not when tst1 == 0 (zero leading '
                           'diagonal and sub-diagonal): m reaches n, the QL step reads past the arrays and divides by zero - the matrix is returned undiagonalised',
@@ -642,6 +770,82 @@ def rule_tred2_scaling(chk):
     chk.floor('tred2 sums of squares', n, 1)
 
 
+def rule_tred2_sign(chk):
+    """tred2: the Householder scalar g is -sign(f) * sqrt(h) with |g| = sqrt(h) for EVERY f, f == 0 included (a row whose last sub-diagonal entry vanishes, e.g. a tensor with
+    A[1][2] == 0): with g = 0 the reflector degenerates (h - f*g = h, d[i-1] = f - g = 0) into a projection and V is no longer orthogonal.  Decided per path of the statements
+    that settle g between its first definition from sqrt(h) and its first use: the value is sqrt(h) times a factor that evaluates to +1 or -1 for f < 0, f == 0 and f > 0."""
+    from verif_static import paths as PT
+    rel = 'pysph/base/linalg3.pyx'
+    t = M.cy(rel)
+    fns = [f for f in ast.walk(t) if isinstance(f, ast.FunctionDef) and f.name == 'tred2']
+    if not fns:
+        raise AnalysisError('tred2 vanished from linalg3.pyx')
+    fn = fns[0]
+    M.set_parents(fn)
+    n = 0
+    for a in ast.walk(fn):
+        if not (isinstance(a, ast.Assign) and len(a.targets) == 1 and isinstance(a.targets[0], ast.Name) and any(isinstance(c, ast.Call) and M.call_name(c) == 'sqrt' for c in ast.walk(a.value))):
+            continue
+        g = a.targets[0].id
+        par = a.parent
+        blk = next((getattr(par, f_) for f_ in ('body', 'orelse') if isinstance(getattr(par, f_, None), list) and a in getattr(par, f_)), None)
+        if blk is None:
+            continue
+        k = blk.index(a)
+        seg = [a]
+        for st in blk[k + 1:]:
+            # statements that (re)define g only: the first one that reads g for something else ends the segment
+            if isinstance(st, ast.If) and all(isinstance(x, ast.Assign) and U(x.targets[0]) == g for x in st.body + st.orelse):
+                seg.append(st)
+            elif isinstance(st, ast.Assign) and U(st.targets[0]) == g:
+                seg.append(st)
+            else:
+                break
+        hname = None
+        for c in ast.walk(a.value):
+            if isinstance(c, ast.Call) and M.call_name(c) == 'sqrt' and c.args and isinstance(c.args[0], ast.Name):
+                hname = c.args[0].id
+        if hname is None:
+            continue
+        n += 1
+        bad = []
+        for p_ in PT.enumerate_paths(seg):
+            env = p_[-1].env
+            val = env.get(g)
+            if val is None:
+                bad.append('g not settled')
+                continue
+            val = PT.resolve(val, env)
+            facts = [(compact(t_), tr) for t_, tr in PT.path_facts(p_)]
+            # sign cases of f compatible with the tests this path took
+            cases = []
+            for fv in (-1.0, 0.0, 1.0):
+                okc = True
+                for t_, tr in facts:
+                    try:
+                        r_ = eval(compile(ast.Expression(body=ast.parse(t_, mode='eval').body), '<t>', 'eval'), {'__builtins__': {}}, {'f': fv})
+                    except Exception:
+                        continue
+                    if bool(r_) != tr:
+                        okc = False
+                if okc:
+                    cases.append(fv)
+            for fv in cases:
+                # value of g / sqrt(h): evaluate with sqrt(h) = 1
+                try:
+                    r_ = eval(compile(ast.Expression(body=ast.parse(U(val), mode='eval').body), '<g>', 'eval'), {'__builtins__': {}},
+                              {'f': fv, hname: 1.0, 'sqrt': lambda x: 1.0, 'fabs': abs, 'abs': abs, 'copysign': __import__('math').copysign})
+                    if abs(abs(float(r_)) - 1.0) > 0 or (fv != 0 and float(r_) * fv > 0):
+                        bad.append('for f %s 0 the value is %s * sqrt(%s)' % ('<' if fv < 0 else '>' if fv > 0 else '==', r_, hname))
+                except Exception as ex:
+                    bad.append('g = %s cannot be evaluated (%s)' % (U(val), ex))
+        chk.decide(not bad, 'eigen-scaling-wrapper', 'tred2:householder-sign@%d' % n, node=a, file=rel, func='tred2',
+                   detail_bad='%s: g must be -sign(f)*sqrt(h) with |g| = sqrt(h) also when f == 0 (a vanishing sub-diagonal entry): with g == 0 the reflector is a projection and the '
+                              'eigenvectors returned are not orthonormal' % '; '.join(sorted(set(bad))[:2]),
+                   detail_ok='|g| = sqrt(h) for f < 0, f == 0, f > 0, sign opposite to f')
+    chk.floor('Householder scalars in tred2', n, 1)
+
+
 def rule_declared_types(chk):
     """Python and the transpiled code compute the same numbers: a local declared for the transpiler must be able to hold what the Python code keeps in it - nothing
     that carries a matrix entry / a quotient may be declared 'float' (single precision in C) or an integer type (truncation)"""
@@ -699,6 +903,7 @@ def main(chk):
     rule_backsub_pivot(chk)
     rule_hypot(chk)
     rule_tred2_scaling(chk)
+    rule_tred2_sign(chk)
     chk.unit('functions', list(HELPERS) + ['gj_solve'])
     if not any(o.verdict == 'VIOLATED' for o in chk.obs):
         chk.floor('obligations', len(chk.obs), 14)
